@@ -224,7 +224,7 @@ theorem startLeafFetch_ok (W : World Node VH V) (hOK : W.OK) (ps : PageSet Node)
       (fun e => inRange r.pos.raw stop e.1))) := ksorted_vhMap _ (ksorted_filter (baseOf_sorted W hOK) _)
   have hso : OvSorted (ovRange W.env r.pos.raw stop) := List.Pairwise.filter _ hOK.ov
   have hlf := leafFetch_single hsd hso hview.symm
-  have h0 : ∀ l ∈ W.env.leaves.head?, bitsLt r.pos.raw l.sep = false := fun l hl => hOK.firstSep l hl _
+  have h0 : ∀ l ∈ W.env.leaves.head?, bitsLt r.pos.raw l.sep = false := fun l hl => hOK.firstSep l hl _ ht.wf.rawLen
   unfold startLeafFetch beginLeafFetch
   rw [hrb]
   simp only
